@@ -14,5 +14,6 @@ cd "$work/verif"
 set +e
 VERIF_REPO="$work/repo" ./check "$prop" --tier "$tier"
 rc=$?
+rm -rf /tmp/seedtest-last && mkdir -p /tmp/seedtest-last && cp -r "$work/verif/replays/." /tmp/seedtest-last/ 2>/dev/null
 # keep the replay files of a detected violation next to the seeded change for reference
 exit $rc
